@@ -106,3 +106,10 @@ CHECKS["C10"] = dict(
           "(fake VCS answers, generated hook scripts, status output) and run; the trace spec projects the recorded command/hook log and compares it, the exit class, the file change "
           "and the hook environment with Expected(conf)."),
     note=_NOTE, ref="DESIGN.md section 6, C10")
+CHECKS["C12"] = dict(
+    technique="TLA+ spec of command templates and message rendering (BVVcs) model-checked with TLC + trace validation of the argv a fake git/hg receives from real `update` runs",
+    text=("Design level: templates over 15 hostile symbols/placeholders up to length 3 (thorough 4) from config or command line: the message is one argument whatever it contains, "
+          "no documented placeholder is left, literals are kept, OLD/NEW are substituted only as whole words and only on the command line. Conformance: seeded `update` runs with "
+          "commit/tag/push on against the fake git (every 4th: hg) with hostile message templates and file names; every mutating VCS invocation is an `argv` event whose expected "
+          "argv the trace spec builds from the command table and the rendered template; hg's message is read from the --logfile file; staged paths must be the configured ones."),
+    note=_NOTE, ref="DESIGN.md section 6, C12")
